@@ -651,7 +651,7 @@ pub fn run_script(spec: &ScriptSpec, cfg: &ScriptCfg, append_as_add: bool, stats
                     _ => (None, None),
                 };
                 let cancel_at = if let Step::BuildCancelled { k, .. } = &step { Some(*k) } else { None };
-                let b = BuildOpts { ix, n_trees, split_after, avail_mem: None, rng_seed: *rng_seed, threads: 1, cancel_at };
+                let b = BuildOpts { ix, n_trees, split_after, avail_mem: None, rng_seed: *rng_seed, threads: 1, cancel_at, twice: false };
                 let n_items = st[ix].items.len();
                 let bound = poll_bound(n_items, n_trees.unwrap_or_else(|| interp::auto_trees(n_items, isp.dims)).max(st[ix].prev_trees));
                 let out = with_metric!(metric, D => {
